@@ -129,7 +129,7 @@ class AArr:
         return ABytes(self.shape[0] * w, lambda k: at((k // w,), k % w))
 
     def __getitem__(self, sl):
-        if self.ndim != 1 or not isinstance(sl, slice) or sl.step is not None:
+        if self.ndim != 1 or not isinstance(sl, slice):
             raise NotImplementedError("AArr: only 1-D slices")
         n = self.shape[0]
         a, b = sl.start, sl.stop
@@ -137,9 +137,15 @@ class AArr:
         b = n if b is None else (b + n if b < 0 else b)
         a = min(max(a, 0), n)
         b = min(max(b, 0), n)
-        m = b - a if b > a else 0
         at = self._at
-        return AArr((m,), self.w, lambda idx, bb: at((idx[0] + a,), bb))
+        if sl.step is None or sl.step == 1:
+            m = b - a if b > a else 0
+            return AArr((m,), self.w, lambda idx, bb: at((idx[0] + a,), bb))
+        st = sl.step
+        if not isinstance(st, int) or st <= 0:
+            raise NotImplementedError("AArr: only positive concrete steps")
+        m = (b - a + st - 1) // st if b > a else 0          # strided view: element j is element a + j * step
+        return AArr((m,), self.w, lambda idx, bb: at((idx[0] * st + a,), bb))
 
 
 def reshape(arr, shape, order="C"):
